@@ -831,83 +831,84 @@ class MapScenario(Opaque):
 
 def r5_range_conservation(ctx, F):
     """RangeChecker::add_range_checks: every value is counted once in the multiplicity table and all values are recorded for
-    the row, whether or not the row already has recorded values (u32 operation and memory access on the same row index)"""
+    the row, whether or not the row already has recorded values (u32 operation and memory access on the same row index), and
+    whether or not the value was counted before. The BTreeMap entry API is modelled generically (entry / and_modify /
+    or_insert / or_insert_with / or_default on a slot that is present or vacant), so the verdict does not depend on which
+    combination of these calls the code uses."""
     fn = F.fn(r"^miden_processor::range::RangeChecker::add_range_checks$")
     adt = F.adt(r"^miden_processor::range::RangeChecker$")
     fields = [f["name"] for f in adt["variants"][0]["fields"]]
     for present in (False, True):
-        for nvals in (2, 4):
-            key = "add_range_checks|row-%s|%d-values" % ("occupied" if present else "vacant", nvals)
-            ctx.inst(key=key, nontrivial=True)
-            vals = [Term("v%d" % i) for i in range(nvals)]
-            old = [Term("old0"), Term("old1")]
-            cyc = MapScenario("cycle_lookups", present, Agg(list(old), "vec") if present else None)
-            cnt = MapScenario("lookups", True, None)
-            counts = []
-            I = Interp(F)
-            add = lambda rx, m: I.overrides.append((re.compile(rx), m))
+        for counted in (False, True):
+            for nvals in (2, 4):
+                key = "add_range_checks|row-%s|%d-values" % ("occupied" if present else "vacant", nvals)
+                if counted:
+                    key += "|values-seen-before"
+                ctx.inst(key=key, nontrivial=True)
+                vals = [Term("v%d" % i) for i in range(nvals)]
+                old = [Term("old0"), Term("old1")]
+                cyc = MapScenario("cycle_lookups", present, Agg(list(old), "vec") if present else None)
+                cnt = MapScenario("lookups", counted, None)
+                I = Interp(F)
+                add = lambda rx, m: I.overrides.append((re.compile(rx), m))
 
-            def entry(I, a, f):
-                m = deref(a[0])
-                e = Opaque("entry")
-                e.map, e.key = m, a[1]
-                if m.name == "lookups":
-                    e.slot = [Term("count", a[1])]
-                    e.present = True        # both branches are analysed by the closure / or_insert value below
-                else:
-                    e.slot = [m.cur]
-                    e.present = m.present
-                return e
-            add(r"btree::map::BTreeMap::entry$", entry)
+                def entry(I, a, f):
+                    m = deref(a[0])
+                    e = Opaque("entry")
+                    e.map, e.key = m, a[1]
+                    if m.name == "lookups":
+                        e.present = m.present
+                        e.slot = [Term("count", a[1]) if m.present else None]
+                    else:
+                        e.present = m.present
+                        e.slot = [m.cur]
+                    m.log.append((a[1], e.slot))
+                    return e
+                add(r"btree::map::BTreeMap::entry$", entry)
 
-            def and_modify(I, a, f):
-                e = a[0]
-                if e.map.name == "lookups":
-                    I.call_closure(a[1], [Ptr(e.slot, 0)])
-                    e.modified = e.slot[0]
-                elif e.present:
-                    I.call_closure(a[1], [Ptr(e.slot, 0)])
-                return e
-            add(r"btree::map::entry::Entry::and_modify$", and_modify)
+                def and_modify(I, a, f):
+                    e = a[0]
+                    if e.present:
+                        I.call_closure(a[1], [Ptr(e.slot, 0)])
+                    return e
+                add(r"btree::map::entry::Entry::and_modify$", and_modify)
 
-            def or_insert(I, a, f):
-                e = a[0]
-                if e.map.name == "lookups":
-                    counts.append((e.key, getattr(e, "modified", None), a[1]))
+                def fill(e, mk):
+                    if not e.present:
+                        e.slot[0] = mk()
+                        e.present = True
                     return Ptr(e.slot, 0)
-                if not e.present:
-                    e.slot[0] = a[1]
-                e.map.final = e.slot[0]
-                return Ptr(e.slot, 0)
-            add(r"btree::map::entry::Entry::or_insert$", or_insert)
+                add(r"btree::map::entry::Entry::or_insert$", lambda I, a, f: fill(a[0], lambda: a[1]))
+                add(r"btree::map::entry::Entry::or_insert_with$", lambda I, a, f: fill(a[0], lambda: I.call_closure(a[1], [])))
 
-            def or_insert_with(I, a, f):
-                e = a[0]
-                if not e.present:
-                    e.slot[0] = I.call_closure(a[1], [])
-                e.map.final = e.slot[0]
-                return Ptr(e.slot, 0)
-            add(r"btree::map::entry::Entry::or_insert_with$", or_insert_with)
-            add(r"slice::\[T\]::to_vec$|slice::<impl \[T\]>::to_vec$|::to_vec$", lambda I, a, f: Agg(list((a[0] if isinstance(a[0], SlicePtr) else I.as_slice(a[0])).values()), "vec"))
-            selfv = Agg([{"lookups": cnt, "cycle_lookups": cyc}.get(n, Opaque(n)) for n in fields], "adt", adt["id"], adt["variants"][0]["name"])
-            try:
-                I.call(fn.id, [Ptr([selfv], 0), Term("row"), SlicePtr(list(vals), 0, nvals)])
-            except (Unanalysable, PanicReached) as e:
-                ctx.violation("UNANALYSABLE|%s" % key, fn.loc(), str(e)[:300])
-                continue
-            final = getattr(cyc, "final", None)
-            got = [repr(x) for x in final.items] if isinstance(final, Agg) else None
-            want = ([repr(x) for x in old] if present else []) + [repr(v) for v in vals]
-            ok = got == want
-            ctx.oblig(ok)
-            if not ok:
-                ctx.violation("range-row-lookups|%s" % ("occupied" if present else "vacant"), fn.loc(),
-                              "add_range_checks on a row that %s records %s for the row; expected %s: lookups of that row are lost, so b_range subtracts fewer values than the table's multiplicities add"
-                              % ("already has lookups [old0, old1]" if present else "has no lookups yet", got, want))
-            okc = [repr(k) for k, m, ins in counts] == [repr(v) for v in vals] and all(repr(m) == "+(count(%r), 1)" % (k,) and ins == 1 for k, m, ins in counts)
-            ctx.oblig(okc)
-            if not okc:
-                ctx.violation("range-multiplicity", fn.loc(), "add_range_checks must increment the multiplicity of each value exactly once (present: +1, absent: insert 1): %s" % [(repr(k), repr(m), ins) for k, m, ins in counts])
+                def or_default(I, a, f):
+                    ga = [str(g) for g in (getattr(f, "ga", None) or [])]
+                    is_vec = any("Vec<" in g for g in ga[1:2]) or a[0].map.name == "cycle_lookups"
+                    return fill(a[0], lambda: Agg([], "vec") if is_vec else 0)
+                add(r"btree::map::entry::Entry::or_default$", or_default)
+                add(r"slice::\[T\]::to_vec$|slice::<impl \[T\]>::to_vec$|::to_vec$", lambda I, a, f: Agg(list((a[0] if isinstance(a[0], SlicePtr) else I.as_slice(a[0])).values()), "vec"))
+                selfv = Agg([{"lookups": cnt, "cycle_lookups": cyc}.get(n, Opaque(n)) for n in fields], "adt", adt["id"], adt["variants"][0]["name"])
+                try:
+                    I.call(fn.id, [Ptr([selfv], 0), Term("row"), SlicePtr(list(vals), 0, nvals)])
+                except (Unanalysable, PanicReached) as e:
+                    ctx.violation("UNANALYSABLE|%s" % key, fn.loc(), str(e)[:300])
+                    continue
+                finals = [sl[0] for k, sl in cyc.log]
+                final = finals[-1] if finals else None
+                got = [repr(x) for x in final.items] if isinstance(final, Agg) else None
+                want = ([repr(x) for x in old] if present else []) + [repr(v) for v in vals]
+                ok = got == want and len(cyc.log) == 1 and repr(cyc.log[0][0]) == "row"
+                ctx.oblig(ok)
+                if not ok:
+                    ctx.violation("range-row-lookups|%s" % ("occupied" if present else "vacant"), fn.loc(),
+                                  "add_range_checks on a row that %s records %s for the row; expected %s: lookups of that row are lost, so b_range subtracts fewer values than the table's multiplicities add"
+                                  % ("already has lookups [old0, old1]" if present else "has no lookups yet", got, want))
+                wantc = [(repr(v), ("+(count(%r), 1)" % (v,)) if counted else "1") for v in vals]
+                gotc = [(repr(k), repr(sl[0])) for k, sl in cnt.log]
+                okc = gotc == wantc
+                ctx.oblig(okc)
+                if not okc:
+                    ctx.violation("range-multiplicity", fn.loc(), "add_range_checks must increment the multiplicity of each value exactly once (counted before: +1, otherwise 1): got %s, expected %s" % (gotc, wantc))
 
 
 def mod8(t, res):
